@@ -99,6 +99,7 @@ typedef struct {
         uint32_t taglen;   /* requested tag length */
         uint32_t aadlen;
         uint32_t ivlen;
+        uint32_t ctrcls;   /* counter class of a 16-byte counter block (0 = random IV), see hx_job_build */
         uint32_t cfail;    /* CUSTOM call-backs: bit 0 cipher reports failure, bit 1 hash reports failure */
         uint32_t pli;      /* PON: payload length indicator written into the XGEM header */
         uint32_t bitadj;   /* for bit-length modes: number of bits removed from the last byte (0..7) */
